@@ -5,5 +5,6 @@ CONSTANTS
   Want = 2
   Cancels = {TRUE}
   Lates = {FALSE}
+  ClosingCheck = FALSE
   Stops = {FALSE, TRUE}
 INVARIANTS TypeOK NoPanic
